@@ -285,10 +285,25 @@ pub fn scenario_resync(set: u8, bytes: [u8; 4], n: u8, probe: [u8; 3], verbose: 
 
 /// C19: `[prefix] c` is a press of K  iff  its break form is a release of the same K (Set 2: `[prefix] F0 c`; Set 1: `[prefix] c|0x80`)
 pub fn scenario_pairing(set: u8, prefix: u8, code: u8, verbose: bool) -> bool {
+    scenario_pairing_after(set, 0xE0, prefix, code, verbose)
+}
+
+/// the same after one earlier complete byte `hist` (skipped when it is a prefix byte): pairing must not depend on history
+pub fn scenario_pairing_after(set: u8, hist: u8, prefix: u8, code: u8, verbose: bool) -> bool {
     let mut m1 = ScancodeSet1::new();
     let mut m2 = ScancodeSet2::new();
     let mut b1 = ScancodeSet1::new();
     let mut b2 = ScancodeSet2::new();
+    if hist != 0xE0 && hist != 0xE1 && hist != 0xF0 {
+        if set == 1 {
+            let _ = m1.advance_state(hist);
+            let _ = b1.advance_state(hist);
+        } else {
+            let _ = m2.advance_state(hist);
+            let _ = b2.advance_state(hist);
+        }
+        say!(verbose, "history: byte 0x{:02X} fed to both decoders first", hist);
+    }
     if prefix == 0xE0 || prefix == 0xE1 {
         if set == 1 {
             let _ = m1.advance_state(prefix);
@@ -322,6 +337,35 @@ pub fn scenario_pairing(set: u8, prefix: u8, code: u8, verbose: bool) -> bool {
     };
     say!(verbose, "Set {} prefix 0x{:02X} code 0x{:02X}: make -> {:?}, break -> {:?}{}", set, prefix, code, mk, br, if down == up { "" } else { "   <-- MISMATCH (press and release do not pair)" });
     down == up
+}
+
+/// key that `[prefix] code` is reported to press after the one-byte history `hist` (None: no press)
+pub fn x_press_after(set: u8, hist: u8, prefix: u8, code: u8) -> Option<KeyCode> {
+    let mut d1 = ScancodeSet1::new();
+    let mut d2 = ScancodeSet2::new();
+    if hist != 0xE0 && hist != 0xE1 && hist != 0xF0 {
+        let _ = if set == 1 { d1.advance_state(hist) } else { d2.advance_state(hist) };
+    }
+    if prefix == 0xE0 || prefix == 0xE1 {
+        let _ = if set == 1 { d1.advance_state(prefix) } else { d2.advance_state(prefix) };
+    }
+    let r = if set == 1 { d1.advance_state(code) } else { d2.advance_state(code) };
+    match r {
+        Ok(Some(e)) if e.state == KeyState::Down => Some(e.code),
+        _ => None,
+    }
+}
+
+/// C19: two distinct sequences must not denote the same key, whatever complete byte came before
+pub fn scenario_injective(set: u8, hist: u8, p1: u8, c1: u8, p2: u8, c2: u8, verbose: bool) -> bool {
+    if (p1, c1) == (p2, c2) {
+        return true;
+    }
+    let a = x_press_after(set, hist, p1, c1);
+    let b = x_press_after(set, hist, p2, c2);
+    say!(verbose, "Set {} after byte 0x{:02X}: [{:02X}] {:02X} presses {:?}; [{:02X}] {:02X} presses {:?}{}", set, hist, p1, c1, a, p2, c2, b,
+         if a.is_some() && a == b { "   <-- MISMATCH (two distinct sequences denote the same key)" } else { "" });
+    !(a.is_some() && a == b)
 }
 
 // ---------------------------------------------------------------- C04 / C14
